@@ -211,8 +211,15 @@ func (P *curvePoint) UnmarshalBinary(buf []byte) error {
 		return fmt.Errorf("invalid point format: expected uncompressed (4), got %d", buf[0])
 	}
 
-	P.x = new(big.Int).SetBytes(buf[1 : 1+byteLen])
-	P.y = new(big.Int).SetBytes(buf[1+byteLen : 1+2*byteLen])
+	x := new(big.Int).SetBytes(buf[1 : 1+byteLen])
+	y := new(big.Int).SetBytes(buf[1+byteLen : 1+2*byteLen])
+	// only members of the group (or the encoding of the identity) are accepted:
+	// later arithmetic panics on anything else
+	if !P.c.IsOnCurve(x, y) && (x.Sign() != 0 || y.Sign() != 0) {
+		return errors.New("invalid point: not on the curve")
+	}
+	P.x = x
+	P.y = y
 	return nil
 }
 
